@@ -70,8 +70,12 @@ def P(name, **kw):
     return p
 
 
+# contracts written but not closing within the time budget (never part of a registered check): the trailing-blank strip of tokenize()
+WIP = ['tokenize_strip']
+
+
 def select(names):
-    ps = {p.name: p for p in all_proofs()}
+    ps = {p.name: p for p in all_proofs() if p.name not in WIP}
     return [ps[n] for n in names]
 
 
@@ -103,6 +107,18 @@ def all_proofs():
           assumed=['parse_ignored / parse_macro: arbitrary effect on the cursor and the chunk (views that only record the call)'],
           mutants=[('macro_before_ignored', r'(?s)(   // If it is turned off.*?\n   \}\n)(   log_rule_B\("disable_processing_nl_cont"\);.*?\n   \}\n)', r'\2\1', 'postcondition'),
                    ('ignored_always', r'if \(cpd.unc_off\)', 'if (true)', 'postcondition')]),
+        P('tokenize_strip', impl='contracts/shared/strip.impl.cpp', enforce='tokenize_strip/tokenize_strip_contract', canaries=2, rules={}, split=12,
+          loops=[dict(fn='tokenize_strip', id=0, vars=['chunkp', 'num_stripped'],
+                      assigns='num_stripped, DI_size(UT_chars(Chunk_m_str(chunkp)))',
+                      inv='UT_size(Chunk_m_str(chunkp)) <= %s && num_stripped >= 0 && (unsigned long)num_stripped == %s - UT_size(Chunk_m_str(chunkp))' % (E('UT_size(Chunk_m_str(chunkp))'), E('UT_size(Chunk_m_str(chunkp))')) +
+                          ' && ((g_strip_K >= UT_size(Chunk_m_str(chunkp)) && g_strip_K < %s) ==> (UT_at(Chunk_m_str(chunkp), g_strip_K) == 32 || UT_at(Chunk_m_str(chunkp), g_strip_K) == 9))' % E('UT_size(Chunk_m_str(chunkp))') +
+                          ' && (UT_size(Chunk_m_str(chunkp)) < %s ==> (UT_size(Chunk_m_str(chunkp)) == 0 || UT_at(Chunk_m_str(chunkp), UT_size(Chunk_m_str(chunkp)) - 1) != 92))' % E('UT_size(Chunk_m_str(chunkp))'),
+                      decreases='UT_size(Chunk_m_str(chunkp))')],
+          functions=['tokenize.cpp:tokenize (fragment: trailing-blank strip of the main loop)', 'unc_text.cpp:UncText::pop_back'],
+          expect=['tokenize_strip_contract.postcondition', 'loop_decreases'],
+          mutants=[('backslash_guard_preproc_only', r'if \(  \(chunk.GetStr\(\).size\(\) > 1\)', 'if (  cpd.in_preproc != CT_NONE && (chunk.GetStr().size() > 1)', 'postcondition|loop_invariant'),
+                   ('strips_ignored', r'if \(chunk.GetType\(\) != CT_IGNORED\)', 'if (true)', 'postcondition'),
+                   ('keeps_tabs', r"\|\| \(chunk.GetStr\(\)\[chunk.GetStr\(\).size\(\) - 1\] == '\\t'\)\)\)", '))', 'postcondition')]),
         P('tokenize_tail', enforce='tokenize_tail/tokenize_tail_contract', defines=['REAL_CSTR_ASSIGN=1'],
           functions=['tokenize.cpp:tokenize (tail fragment: choice of cpd.newline)', 'unc_text.cpp:UncText::operator=(const char*)', 'unc_text.cpp:UncText::set(const char*)'],
           expect=['tokenize_tail_contract.postcondition'],
